@@ -12,6 +12,9 @@ import (
 	_ "verif/harness/props/c26"
 	_ "verif/harness/props/c27"
 	_ "verif/harness/props/c28"
+	_ "verif/harness/props/c34"
+	_ "verif/harness/props/c35"
 	_ "verif/harness/props/c36"
+	_ "verif/harness/props/c47"
 	_ "verif/harness/props/c48"
 )
